@@ -426,25 +426,22 @@ impl Scala {
             .try_for_each(|comment| self.write_comment(w, indent, comment))
     }
 
+    /// The last segment of the package name; the whole name if it has only one segment.
+    fn innermost_package(&self) -> &str {
+        self.package
+            .rsplit_once('.')
+            .map_or(self.package.as_str(), |(_parent, last)| last)
+    }
+
     fn begin_package_object(&mut self, w: &mut dyn Write) -> std::io::Result<()> {
-        match self.package.rsplit_once('.') {
-            None => {}
-            Some((_parent, last)) => {
-                writeln!(w, "package object {} {{", last)?;
-                writeln!(w)?;
-            }
-        };
+        writeln!(w, "package object {} {{", self.innermost_package())?;
+        writeln!(w)?;
         Ok(())
     }
 
     fn begin_package(&mut self, w: &mut dyn Write) -> std::io::Result<()> {
-        match self.package.rsplit_once('.') {
-            None => {}
-            Some((_parent, last)) => {
-                writeln!(w, "package {} {{", last)?;
-                writeln!(w)?;
-            }
-        };
+        writeln!(w, "package {} {{", self.innermost_package())?;
+        writeln!(w)?;
         Ok(())
     }
 
